@@ -258,6 +258,57 @@ def explore(ctx):
         if sexp.dumps(r) != mcanon[qi]:
             failures.append({'kind': 'corr', 'what': 'the grammar model reads two spellings of one query differently',
                              'payload': {'query': q2, 'canonical_spelling': base[qi][0]}})
+    # spellings written by the EXTRACTED Coq printer (Print.v): the printer of the round-trip theorems
+    # (C04_query_roundtrip / C20_query_spellings_agree) is the printer of this test, so the theorem's
+    # statement is exercised against the real parser, not only against its transcription
+    WS0 = ['', ' ', '  ', '\t', '\n ']
+    WS1 = [' ', '  ', '\t', ' \n ', '\n']
+    ppjobs = []
+    for qi, (q, stages) in enumerate(base):
+        for k in range(2 if quick else 6):
+            flags = [Sym('true') if rng.random() < 0.5 else Sym('false') for _ in range(4)]
+            try:
+                ppjobs.append((qi, sexp.dumps([Sym('pp'), rng.choice(WS0), rng.choice(WS1), flags, qast.filter_sexp(STAR), [qast.stage_sexp(st) for st in stages]])))
+            except (ValueError, TypeError):
+                pass
+    ppres = aglib.run_model_many([j[1] for j in ppjobs])
+    coq_jobs = []
+    coq_meta = []
+    pp_wf = pp_notwf = 0
+    for (qi, _), r in zip(ppjobs, ppres):
+        if isinstance(r, Sym) or not isinstance(r, list) or len(r) != 3:
+            continue
+        if str(r[1]) != 'wf':
+            pp_notwf += 1
+            continue
+        pp_wf += 1
+        coq_jobs.append((r[2], inp, 'json', ()))
+        coq_meta.append((qi, r[2]))
+    coq_outs = aglib.run_impl_many(coq_jobs)
+
+    def positional(out):
+        # values only, column by column: the NAME of a computed key column is its source text
+        try:
+            rows = [json.loads(l, object_pairs_hook=lambda kv: kv) for l in out.decode('utf8', 'replace').splitlines() if l.strip()]
+        except ValueError:
+            return out
+        strip = lambda x: [strip(v) for _k, v in x] if isinstance(x, list) and x and isinstance(x[0], tuple) else ([strip(v) for v in x] if isinstance(x, list) else x)
+        return json.dumps([strip(r) for r in rows], sort_keys=False)
+    for (qi, text), o in zip(coq_meta, coq_outs):
+        ref = canon.get(qi)
+        if ref is None:
+            continue
+        plain_keys = all(e[0] == 'col' and not e[2] for st in base[qi][1] if st[0] == 'agg' for _h, e in st[2])
+        same = (o['rc'] == ref['rc']) and ((o['out'] == ref['out']) if plain_keys else (positional(o['out']) == positional(ref['out'])))
+        if not same:
+            known = None
+            if 'stage_starts_with_reserved_word' in ctx.get('known_classes', ()) and any(
+                    st[0] == 'let' and RESERVED_START.match(qast.expr_text(st[1])) for st in base[qi][1]):
+                known = 'KF-30'
+            failures.append({'kind': 'spec', 'known': known, 'what': 'a spelling written by the printer of the round-trip theorem is read differently by the real parser (rc %s vs %s)' % (ref['rc'], o['rc']),
+                             'payload': {'query': text, 'canonical_spelling': base[qi][0], 'input_lines': lines,
+                                         'output': o['out'].decode('utf8', 'replace')[:600], 'canonical_output': ref['out'].decode('utf8', 'replace')[:600],
+                                         'stderr': o['err'].decode('utf8', 'replace')[-300:]}})
     # filters: whitespace runs between keywords, inside parentheses, quote style
     from props import c02
     flines = ['error a.b x-y\n', 'warn GET /index two words\n', 'ERROR foo_bar a*b x(y)\n', 'nothing here\n', 'Error user@host [z]\n']
@@ -333,12 +384,12 @@ def explore(ctx):
     os.remove(fpath)
     os.rmdir(tmpd)
     cov = {
-        'evaluations': len(jobs) + len(sample) + cli_checked + len(alias_cases) + len(fjobs), 'filter_spellings': len(fjobs), 'distinct_nontrivial': len(nontrivial),
+        'evaluations': len(jobs) + len(sample) + cli_checked + len(alias_cases) + len(fjobs) + len(coq_jobs), 'filter_spellings': len(fjobs), 'distinct_nontrivial': len(nontrivial),
         'rule': '%d query ASTs, each in %d spellings drawn by rewriting the canonical text outside string literals: whitespace runs / no whitespace where optional / line breaks, quote style, '
                 'avg/average, pNN/pctNN/percentileNN, !=/<>, and/&&, or/||, asc/ascending/(none), desc/dsc/descending, fields +/only/include/(none) and -/except/drop, bare limit vs limit 10, '
                 'count vs count as _count, explicit default names for every aggregate/timeslice/total, ["name"] vs bare name, from before/after as, redundant parentheses, whitespace inside parentheses and after `!`, sort by x vs sort by x asc; byte comparison of -o json output; aliases vs expansions; --format vs -o format=, --file vs stdin; the grammar model on the same spellings; '
                 'non-trivial = >= 3 spelling choices exercised' % (len(base), nsp),
         'samples': [{'canonical': base[0][0], 'spelling': meta[1][1]}, {'canonical': base[1][0], 'spelling': meta[nsp + 2][1]}],
-        'spellings': len(jobs) - len(base), 'cli_cases': cli_checked,
+        'spellings': len(jobs) - len(base), 'cli_cases': cli_checked, 'coq_printer_spellings': pp_wf, 'coq_printer_outside_wf': pp_notwf,
     }
     return {'coverage': cov, 'failures': failures}
